@@ -449,6 +449,10 @@ int main(void) {
 			if (n > 1 && rc == KSI_OK) rc = KSI_CTX_setAggregatorHmacAlgorithm(ctx, (size_t)atoi(tok[1]));
 			if (n > 2 && rc == KSI_OK) rc = KSI_CTX_setExtenderHmacAlgorithm(ctx, (size_t)atoi(tok[2]));
 			printf("R bnew rc=%d\n", rc);
+		} else if (!strcmp(tok[0], "PDUVER")) {
+			/* PDUVER <aggregator 1|2> <extender 1|2>: configured PDU versions of the two blocking services (each service's PDUs follow its OWN version) */
+			int rc = KSI_CTX_setOption(ctx, KSI_OPT_AGGR_PDU_VER, (void *)(size_t)atoi(tok[1])); if (rc == KSI_OK) rc = KSI_CTX_setOption(ctx, KSI_OPT_EXT_PDU_VER, (void *)(size_t)atoi(tok[2]));
+			printf("R pduver rc=%d\n", rc);
 		} else if (!strcmp(tok[0], "HMACALG")) {
 			int rc = KSI_CTX_setAggregatorHmacAlgorithm(ctx, (size_t)atoi(tok[1])); if (rc == KSI_OK) rc = KSI_CTX_setExtenderHmacAlgorithm(ctx, (size_t)atoi(tok[2]));
 			printf("R hmacalg rc=%d\n", rc);
